@@ -124,7 +124,12 @@ func typeGuarded(fn *ssa.Function, at ssa.Instruction, v ssa.Value, k int64, dep
 		if !isC || kk != k {
 			continue
 		}
+		// the Type() call itself, or a local it was read into once (`t := v.Type(); switch t {…}`: a cell when a
+		// closure captures t)
 		tc, ok := bo.X.(*ssa.Call)
+		if !ok {
+			tc, ok = core.Canon(bo.X).(*ssa.Call)
+		}
 		if !ok {
 			continue
 		}
